@@ -102,6 +102,9 @@ impl Bracket {
             complement: false,
             items: Vec::new(),
         };
+        // Whether the previous character was an unquoted hyphen, which is the
+        // only character that can make a range out of the adjacent atoms
+        let mut after_hyphen = false;
         while let Some(pc) = i.next() {
             match pc {
                 PatternChar::Normal(']') if !bracket.items.is_empty() => return Some((bracket, i)),
@@ -120,7 +123,10 @@ impl Bracket {
                 }
                 c => bracket.items.push(Atom(Char(c.char_value()))),
             }
-            make_range(&mut bracket.items);
+            if after_hyphen {
+                make_range(&mut bracket.items);
+            }
+            after_hyphen = pc == PatternChar::Normal('-');
         }
         None
     }
